@@ -16,10 +16,14 @@ from common import Case, Failure, f2x, x2f, flist, parse_flist, ilist, err_kind
 
 PID = 'C05'
 LEAN_TARGETS = ['Nitime.Props.C05']
-RULE = ('one case = one public call (estimator function or analyzer attribute) returning a frequency vector, drawn from '
-        'call x Fs in {0.5,1,2,10,125,250,1000,44100, random floats, 2pi} x data length n in [4,40] (both parities) x '
-        'NFFT in {n, other parity, larger, smaller} x sides x real/complex x time unit in {s,ms,us} x band (lb,ub: mid-bin and on-bin); '
-        'distinct = distinct protocol line (site, Fs, N, band) ; non-trivial = N >= 3')
+RULE = ('one case = one public call (estimator function or analyzer attribute) returning a frequency vector. Blocks: (1) per call, '
+        'Fs in {0.5,1,2,10,125,250,1000,44100, random floats, 2pi} x data length n in [4,28] (quick) with parity, NFFT mode {none, larger of the '
+        'other parity, equal, smaller}, channels {1,2,4}, real/complex, unit {s,ms,us}, interval-vs-rate and band mode {none, between bins, on bins, '
+        'outside the grid, inverted lb>ub, degenerate} STRATIFIED by the case index; (2) every two-sided site at N in {49,61,98,103,121,122} x '
+        'Fs in {1, 2pi, 1000} and a sweep N = 2..131 (thorough: ..400) of periodogram / periodogram_csd / get_freqs, on every seed; (3) re-targeted '
+        'analyzers: every analyzer x {set_input, parameters + reset(), both} x what was read on the first input {freq, spec, both orders} x read '
+        'order after re-targeting {frequencies first, spectrum first}, judged against a fresh analyzer and the true grid. '
+        'distinct = distinct protocol line (site, Fs, N, band); non-trivial = N >= 3')
 ASSUMPTIONS = ['Fs > 0 finite; N >= 2; the frequency vector is compared with the exact rational grid at 4 ulp per entry',
                'np.pi is represented in the exact runs by a 40-digit rational (theorems hold for any value of pi)',
                'mlab.psd/csd frequency vector = k*Fs/NFFT (contract, monitored: the Welch paths are compared with the true grid by the oracle on every run)',
@@ -199,17 +203,36 @@ def run_call(m):
         f, c = tsa.correlation_spectrum(x[0], x[1], Fs=Fs)
         return f, None
     # ---- analyzers
-    T = mk_ts(m, x)
+    if m.get('rt'):
+        return run_retarget(m)
+    A = an_build(name, m)
+    f, spec = an_freq(name, A, m)
+    return f, spec, None, None
+
+
+# ------------------------------------------------------------------ analyzers: build / read / re-target
+def an_build(name, m):
+    """a fresh analyzer for the state described by m (rate, length, unit, NFFT, band)"""
+    import nitime.analysis as an
+    N = m['N']
+    lb, ub = opt(m, 'lb'), opt(m, 'ub')
+    lb = 0 if lb is None else lb
+    if name == 'FilterAnalyzer.filtered_fourier':
+        # flat-spectrum probe: an impulse; the bins that survive are read off the FFT of the output
+        d = np.zeros((1, N))
+        d[0, 1] = 1.0
+        return an.FilterAnalyzer(mk_ts(m, d), lb=lb, ub=ub)
+    T = mk_ts(m, data_for(m))
     if name == 'CoherenceAnalyzer.frequencies/welch':
-        return an.CoherenceAnalyzer(T, method={'this_method': 'welch', 'NFFT': N, 'n_overlap': N // 2}).frequencies, None
+        return an.CoherenceAnalyzer(T, method={'this_method': 'welch', 'NFFT': N, 'n_overlap': N // 2})
     if name.startswith('CoherenceAnalyzer.frequencies/'):
-        return an.CoherenceAnalyzer(T, method={'this_method': name.split('/')[1]}).frequencies, None
+        return an.CoherenceAnalyzer(T, method={'this_method': name.split('/')[1]})
     if name == 'MTCoherenceAnalyzer.frequencies':
-        return an.MTCoherenceAnalyzer(T).frequencies, None
+        return an.MTCoherenceAnalyzer(T)
     if name == 'SparseCoherenceAnalyzer.frequencies':
-        return an.SparseCoherenceAnalyzer(T, ij=[(0, 1)], method={'this_method': 'welch', 'NFFT': N}, lb=lb, ub=ub).frequencies, None
+        return an.SparseCoherenceAnalyzer(T, ij=[(0, 1)], method={'this_method': 'welch', 'NFFT': N}, lb=lb, ub=ub)
     if name == 'SeedCoherenceAnalyzer.frequencies':
-        return an.SeedCoherenceAnalyzer(T, T, method={'NFFT': N}, lb=lb, ub=ub).frequencies, None
+        return an.SeedCoherenceAnalyzer(T, T, method={'NFFT': N}, lb=lb, ub=ub)
     if name in ('SpectralAnalyzer.psd', 'SpectralAnalyzer.cpsd'):
         if m.get('retarget'):
             # the analyzer is first built on ANOTHER series (3x the rate) and then pointed at T: the frequency
@@ -220,38 +243,138 @@ def run_call(m):
             A = an.SpectralAnalyzer(T0)           # default method dict (filled in by the constructor)
             A.method.update({'NFFT': N, 'n_overlap': N // 2})
             A.set_input(T)
-        else:
-            A = an.SpectralAnalyzer(T, method={'NFFT': N, 'n_overlap': N // 2})
-        if name == 'SpectralAnalyzer.psd':
-            f, p = A.psd
-            return f, p[0]
+            return A
+        return an.SpectralAnalyzer(T, method={'NFFT': N, 'n_overlap': N // 2})
+    if name.startswith('SpectralAnalyzer.'):
+        return an.SpectralAnalyzer(T)
+    if name == 'GrangerAnalyzer.frequencies':
+        return an.GrangerAnalyzer(T, order=1, n_freqs=N)
+    if name == 'SNRAnalyzer.mt_frequencies':
+        return an.SNRAnalyzer(T)
+    raise KeyError(name)
+
+
+def an_freq(name, A, m):
+    """(frequency vector | kept bins, spectrum | None) read from analyzer A"""
+    N = m['N']
+    if name == 'FilterAnalyzer.filtered_fourier':
+        out = A.filtered_fourier
+        S = np.abs(np.fft.fft(np.asarray(out.data)[0]))
+        return [k for k in range(1, N // 2 + 1) if S[k] > 0.5], None
+    if name == 'SpectralAnalyzer.psd':
+        f, p = A.psd
+        return f, p[0]
+    if name == 'SpectralAnalyzer.cpsd':
         f, p = A.cpsd
         return f, np.abs(p[0, 0])
     if name.startswith('SpectralAnalyzer.periodogram/'):
-        f, p = an.SpectralAnalyzer(T).periodogram
+        f, p = A.periodogram
         return f, p[0]
     if name.startswith('SpectralAnalyzer.spectrum_fourier/'):
-        f, p = an.SpectralAnalyzer(T).spectrum_fourier
+        f, p = A.spectrum_fourier
         return f, np.abs(p[0])
     if name.startswith('SpectralAnalyzer.spectrum_multi_taper/'):
-        f, p = an.SpectralAnalyzer(T).spectrum_multi_taper
+        f, p = A.spectrum_multi_taper
         return f, np.abs(p[0])
-    if name == 'FilterAnalyzer.filtered_fourier':
-        # flat-spectrum probe: an impulse; the bins that survive are read off the FFT of the output
-        d = np.zeros((1, N))
-        d[0, 1] = 1.0
-        import nitime.timeseries as ts
-        Td = mk_ts(m, d)
-        out = an.FilterAnalyzer(Td, lb=lb, ub=ub).filtered_fourier
-        S = np.abs(np.fft.fft(np.asarray(out.data)[0]))
-        return [k for k in range(1, N // 2 + 1) if S[k] > 0.5], None
     if name == 'GrangerAnalyzer.frequencies':
-        g = an.GrangerAnalyzer(T, order=1, n_freqs=N)
-        f = g.frequencies
-        return f, np.asarray(g.causality_xy)[0, 1] if m.get('with_values') else None
+        f = A.frequencies
+        return f, np.asarray(A.causality_xy)[0, 1] if m.get('with_values') else None
     if name == 'SNRAnalyzer.mt_frequencies':
-        return an.SNRAnalyzer(T).mt_frequencies, None
+        return A.mt_frequencies, None
+    return A.frequencies, None
+
+
+def an_spec(name, A):
+    """read a spectrum-like attribute (not the frequency attribute) of A"""
+    if name.startswith('CoherenceAnalyzer.'):
+        return A.coherence
+    if name == 'MTCoherenceAnalyzer.frequencies':
+        return A.coherence
+    if name == 'SparseCoherenceAnalyzer.frequencies':
+        return A.coherence
+    if name == 'SeedCoherenceAnalyzer.frequencies':
+        return A.coherence
+    if name.startswith('SpectralAnalyzer.spectrum_fourier/'):
+        return A.periodogram
+    if name.startswith('SpectralAnalyzer.'):
+        return A.spectrum_fourier
+    if name == 'GrangerAnalyzer.frequencies':
+        return A.causality_xy
+    if name == 'SNRAnalyzer.mt_frequencies':
+        return A.mt_signal_psd
+    if name == 'FilterAnalyzer.filtered_fourier':
+        return A.filtered_fourier
     raise KeyError(name)
+
+
+# how an analyzer can be re-targeted: 'set_input' (another series), 'params' (change the documented
+# parameters, then reset()), 'both', 'none' (no re-targeting API: only the read order is varied)
+RT_HOWS = {
+    'CoherenceAnalyzer.frequencies/welch': ['set_input', 'params', 'both'],
+    'CoherenceAnalyzer.frequencies/multi_taper_csd': ['set_input'],
+    'CoherenceAnalyzer.frequencies/periodogram_csd': ['set_input'],
+    'MTCoherenceAnalyzer.frequencies': ['set_input'],
+    'SparseCoherenceAnalyzer.frequencies': ['set_input', 'params', 'both'],
+    'SeedCoherenceAnalyzer.frequencies': ['none'],
+    'SpectralAnalyzer.psd': ['set_input', 'params', 'both'],
+    'SpectralAnalyzer.cpsd': ['set_input', 'params', 'both'],
+    'SpectralAnalyzer.periodogram/real': ['set_input'],
+    'SpectralAnalyzer.periodogram/complex': ['set_input'],
+    'SpectralAnalyzer.spectrum_fourier/real': ['set_input'],
+    'SpectralAnalyzer.spectrum_fourier/complex': ['set_input'],
+    'SpectralAnalyzer.spectrum_multi_taper/real': ['set_input'],
+    'SpectralAnalyzer.spectrum_multi_taper/complex': ['set_input'],
+    'FilterAnalyzer.filtered_fourier': ['params'],
+    'GrangerAnalyzer.frequencies': ['set_input'],
+    'SNRAnalyzer.mt_frequencies': ['set_input'],
+}
+
+
+def an_retarget(name, A, m, how):
+    """point analyzer A (built for the state m['rt']['A']) at the state m"""
+    N = m['N']
+    lb, ub = opt(m, 'lb'), opt(m, 'ub')
+    lb = 0 if lb is None else lb
+    if how in ('set_input', 'both'):
+        A.set_input(mk_ts(m, data_for(m)))
+    if how in ('params', 'both'):
+        if name == 'FilterAnalyzer.filtered_fourier':
+            A.lb, A.ub = lb, ub
+        elif name == 'SparseCoherenceAnalyzer.frequencies':
+            A.lb, A.ub = lb, ub
+            A.method['NFFT'] = N
+        else:                                   # Welch parameters of CoherenceAnalyzer / SpectralAnalyzer.psd, cpsd
+            A.method['NFFT'] = N
+            A.method['n_overlap'] = N // 2
+        A.reset()
+
+
+def run_retarget(m):
+    """one analyzer object used twice: built for state A, read, re-targeted to state m (= B), read again in
+    the recorded order.  Returns B's frequency vector as this object reports it, plus what a FRESH
+    analyzer built for B reports."""
+    name, rt = m['call'], m['rt']
+    mB = {k: v for k, v in m.items() if k != 'rt'}
+    mA = dict(mB)
+    for k, v in rt['A'].items():           # None = the key is absent in state A
+        if v is None:
+            mA.pop(k, None)
+        else:
+            mA[k] = v
+    A = an_build(name, mA)
+    if rt['pre'] in ('freq', 'both'):
+        an_freq(name, A, mA)
+    if rt['pre'] in ('spec', 'both'):
+        an_spec(name, A)
+    if rt['pre'] == 'both-rev':
+        an_spec(name, A)
+        an_freq(name, A, mA)
+    an_retarget(name, A, mB, rt['how'])
+    if rt['order'] == 'spec-first':
+        an_spec(name, A)
+    f, spec = an_freq(name, A, mB)
+    ff, _ = an_freq(name, an_build(name, mB), mB)
+    return f, spec, None, ff
 
 
 def model_line(m):
@@ -302,12 +425,23 @@ def judge(m, res):
     name = m['call']
     kind = CALLS[name][1]
     pre = '%s/%s' % (name, parity(m))
+    if m.get('rt'):
+        pre = '%s/retarget/%s/%s' % (name, m['rt']['how'], m['rt']['order'])
     out = []
     if isinstance(res, str):
         return [(pre + '/raises', '%s raised %s for Fs=%r N=%d' % (name, res, x2f(m['Fs']), m['N']))]
     f, spec = res[0], res[1]
     want = true_grid(m)
-    if len(res) > 2 and res[2] != len(want):
+    fresh = res[3] if len(res) > 3 else None
+    if fresh is not None:
+        a, b = (list(f), list(fresh)) if kind == 'keep' else ([float(v) for v in np.asarray(f, dtype=float).reshape(-1)],
+                                                               [float(v) for v in np.asarray(fresh, dtype=float).reshape(-1)])
+        if a != b:
+            rt = m['rt']
+            out.append((pre + '/stale-axis', '%s: analyzer built for %s, read (%s), re-targeted by %s, then read %s reports %s%s; a fresh analyzer on the new state reports %s%s' % (
+                name, {k: (x2f(v) if isinstance(v, str) and v.startswith('x') else v) for k, v in rt['A'].items()}, rt['pre'], rt['how'], rt['order'],
+                a[:5], '…' if len(a) > 5 else '', b[:5], '…' if len(b) > 5 else '')))
+    if len(res) > 2 and res[2] is not None and res[2] != len(want):
         out.append((pre + '/band-width', '%s caches %d bins, %d bins have lb <= k*Fs/N <= ub (Fs=%s N=%d lb=%s ub=%s)' % (
             name, res[2], len(want), fs_true(m), m['N'], opt(m, 'lb'), opt(m, 'ub'))))
     if kind == 'keep':
@@ -363,19 +497,26 @@ def judge(m, res):
 
 
 # ------------------------------------------------------------------ generators
-def gen_meta(rng, name, tier):
+def gen_meta(rng, name, tier, idx=None):
+    """one random call description; `idx` (the case index within the call's block) STRATIFIES the dimensions
+    that must not be left to chance: parity of the length (idx%2), NFFT mode (idx//2 %4: none / larger with the
+    other parity / equal / smaller), time unit (idx%3) and interval-vs-rate ((idx//3)%2) of analyzer inputs,
+    band mode (idx//2 %6: none / edges between bins / edges on bins / above the grid / inverted lb>ub / degenerate)"""
     kind = CALLS[name][1]
+    strat = idx is not None
+    if idx is None:
+        idx = rng.randint(0, 10**6)
     m = {'call': name, 'dseed': rng.randint(0, 10**6)}
     if name.split('/')[0] in ('periodogram', 'periodogram_csd', 'multi_taper_psd', 'multi_taper_csd') or \
             name.startswith('get_spectra/periodogram_csd') or name.startswith('get_spectra/multi_taper_csd'):
-        m['nch'] = rng.choice([1, 1, 2, 4])
+        m['nch'] = [1, 2, 1, 4][idx % 4]
     if name in ('SpectralAnalyzer.psd', 'SpectralAnalyzer.cpsd'):
         m['retarget'] = rng.random() < 0.5
     big = tier == 'thorough'
     n = rng.randint(4, 64 if big else 28)
     if 'multi_taper' in name:
         n = max(n, 10 if '.' not in name else 18)
-    if rng.random() < 0.5:
+    if idx % 2:
         n |= 1                                         # odd lengths as often as even ones
     else:
         n &= ~1
@@ -384,12 +525,12 @@ def gen_meta(rng, name, tier):
     if name.split('/')[0] in ('periodogram', 'periodogram_csd', 'multi_taper_psd', 'multi_taper_csd') or \
             name.startswith('get_spectra/periodogram_csd') or name.startswith('get_spectra/multi_taper_csd'):
         m['sides'] = name.split('/')[-1]
-        c = rng.random()
-        if c < 0.45:
+        c = (idx // 2) % 4
+        if c == 0:
             m['NFFT'] = None
-        elif c < 0.7:
-            m['NFFT'] = n + rng.choice([1, 3, 2, 6, 9])
-        elif c < 0.85:
+        elif c == 1:
+            m['NFFT'] = n + rng.choice([1, 3, 9] if rng.random() < 0.7 else [2, 6])   # mostly the other parity
+        elif c == 2:
             m['NFFT'] = n
         else:
             m['NFFT'] = max(3, n - rng.choice([1, 2, 3]))
@@ -409,29 +550,42 @@ def gen_meta(rng, name, tier):
     elif name == 'get_freqs':
         N = rng.randint(2, 200 if big else 60)
     m['N'] = N
-    if name in COMPLEX_CALLS or (name in ('periodogram/twosided', 'multi_taper_psd/twosided') and rng.random() < 0.5):
+    if name in COMPLEX_CALLS or (name in ('periodogram/twosided', 'multi_taper_psd/twosided') and (idx // 2) % 2 == 1):
         m['complex'] = True
     # sampling rate
-    if name in ANALYZER and rng.random() < 0.6:
-        u, dt, rate = rng.choice(INTERVALS)
+    if name in ANALYZER and (idx // 3) % 2 == 0:
+        u, dt, rate = rng.choice([iv for iv in INTERVALS if iv[0] == ['s', 'ms', 'us'][idx % 3]])
         m['unit'], m['interval'] = u, dt
         m['Fs'] = f2x(float(rate))
     else:
         fs = rng.choice(FS_VALUES) if rng.random() < 0.7 else round(rng.uniform(0.1, 5000.0), rng.choice([0, 1, 3, 12]))
         m['Fs'] = f2x(float(fs) if fs > 0 else 1.0)
         if name in ANALYZER:
-            m['unit'] = rng.choice(['s', 'ms', 'us'])
+            m['unit'] = ['s', 'ms', 'us'][idx % 3]
     # bands
     if name in BANDED or kind == 'keep':
         fs = x2f(m['Fs'])
-        c = rng.random()
+        bm = (idx // 2) % 6                             # band mode (crossed with the parity idx%2)
         k1 = rng.randint(0, N // 2)
         k2 = rng.randint(k1, N // 2)
-        if rng.random() < 0.3:      # degenerate bands: DC only, a single bin, the top bin, everything
+        if bm == 5:      # degenerate bands: DC only, a single bin, the top bin, everything
             k1, k2 = rng.choice([(0, 0), (0, 0), (1, 1), (N // 2, N // 2), (0, N // 2), (0, 1), (max(N // 2 - 1, 0), N // 2)])
-        if c < 0.2:
+        if bm == 4 and name == 'cache_fft':
+            bm = 1                                      # cache_fft refuses an inverted band (ValueError): not a C05 matter
+        if bm == 0:
             pass                                        # no band
-        elif c < 0.75:                                  # edges strictly between bins
+        elif bm == 3:                                   # band entirely above the grid (or below it): nothing is kept
+            if rng.random() < 0.7:
+                m['lb'] = f2x((N // 2 + 0.5 + rng.uniform(0, 2)) * fs / N)
+                if rng.random() < 0.5:
+                    m['ub'] = f2x((N // 2 + 3.5) * fs / N)
+            else:
+                m['lb'] = f2x(-2.0 * fs / N)
+                m['ub'] = f2x(-0.5 * fs / N)
+        elif bm == 4:                                   # inverted band lb > ub: nothing is kept
+            m['lb'] = f2x((k2 + 1.5) * fs / N)
+            m['ub'] = f2x(max(0.0, (k1 - 0.5)) * fs / N)
+        elif bm in (1, 5):                              # edges strictly between bins
             m['lb'] = f2x(max(0.0, (k1 - 0.5 + rng.uniform(-0.3, 0.3)) * fs / N))
             if rng.random() < 0.8:
                 m['ub'] = f2x((k2 + 0.5 + rng.uniform(-0.3, 0.3)) * fs / N)
@@ -453,7 +607,7 @@ def gen_meta(rng, name, tier):
     # on-bin sinusoid
     if name.split('/')[0] in ('periodogram', 'periodogram_csd', 'multi_taper_psd', 'multi_taper_csd', 'SpectralAnalyzer.periodogram',
                               'SpectralAnalyzer.spectrum_fourier', 'SpectralAnalyzer.psd', 'SpectralAnalyzer.cpsd') \
-            and rng.random() < 0.6 and m['N'] >= 8:
+            and idx % 5 != 0 and m['N'] >= 8:
         N = m['N']
         if 'multi_taper' in name:
             if m['n'] >= 16:
@@ -493,27 +647,118 @@ def make_case(m):
         impl = ilist(res[0])
     else:
         impl = flist(np.asarray(res[0], dtype=float).reshape(-1))
-    c = _C(model_line(m), impl, m['call'] + '/' + parity(m), cmp=cmp_grid(kind == 'shift') if kind != 'keep' else None,
+    c = _C(model_line(m), impl, m['call'] + ('/retarget' if m.get('rt') else '/' + parity(m)), cmp=cmp_grid(kind == 'shift') if kind != 'keep' else None,
              meta=m, nontrivial=m['N'] >= 3)
     c._res = res
     return c
 
 
+N_IS_LENGTH = ('CoherenceAnalyzer.frequencies/multi_taper_csd', 'CoherenceAnalyzer.frequencies/periodogram_csd',
+               'MTCoherenceAnalyzer.frequencies', 'SpectralAnalyzer.periodogram/real', 'SpectralAnalyzer.periodogram/complex',
+               'SpectralAnalyzer.spectrum_fourier/real', 'SpectralAnalyzer.spectrum_fourier/complex',
+               'SpectralAnalyzer.spectrum_multi_taper/real', 'SpectralAnalyzer.spectrum_multi_taper/complex',
+               'SNRAnalyzer.mt_frequencies', 'FilterAnalyzer.filtered_fourier')
+RT_PRE = ('freq', 'spec', 'both', 'both-rev')
+RT_ORDER = ('freq-first', 'spec-first')
+
+
+def gen_retarget(rng, name, tier, how, pre, order, idx):
+    """state B = an ordinary call description; state A = what the SAME analyzer object was built for and
+    read on before: another rate / unit / length (set_input) and/or other parameters NFFT, lb, ub (params)"""
+    m = gen_meta(rng, name, tier, idx)
+    for k in ('retarget', 'k0', 'centroid'):
+        m.pop(k, None)
+    if name in BANDED and m.get('lb') is not None and m.get('ub') is not None and x2f(m['lb']) > x2f(m['ub']):
+        m['lb'], m['ub'] = m['ub'], m['lb']     # the spectra are read here too, and cache_fft refuses an inverted band
+    A = {}
+    fsB = x2f(m['Fs'])
+    if how in ('set_input', 'both'):
+        if rng.random() < 0.5:
+            u, dt, rate = rng.choice([iv for iv in INTERVALS if float(iv[2]) != fsB])
+            A.update(unit=u, interval=dt, Fs=f2x(float(rate)))
+        else:
+            A.update(interval=None, Fs=f2x(fsB * rng.choice([3.0, 0.5, 7.0])), unit=rng.choice(['s', 'ms', 'us']))
+        if name in N_IS_LENGTH:
+            nA = m['n'] + rng.choice([1, 3, 2, 5])          # another length, mostly the other parity
+            A.update(n=nA, N=nA)
+        else:
+            A['n'] = m['n'] + rng.choice([0, 1, 6])
+        if name.startswith('SpectralAnalyzer.') and name.split('/')[-1] in ('real', 'complex') and idx % 2:
+            A['complex'] = None if m.get('complex') else True      # the first series was of the other kind (sides differ)
+    if how in ('params', 'both'):
+        fsA = x2f(A['Fs']) if 'Fs' in A else fsB
+        if name != 'FilterAnalyzer.filtered_fourier':
+            NA = m['N'] + rng.choice([1, 2, 3, 5])
+            A['N'] = NA
+            A['n'] = max(A.get('n', m['n']), 4 * NA + 1)
+        if name in BANDED or CALLS[name][1] == 'keep':
+            if m.get('lb') is None and m.get('ub') is None or rng.random() < 0.6:
+                A['lb'] = f2x(rng.uniform(0.02, 0.2) * fsA)
+                A['ub'] = f2x(rng.uniform(0.22, 0.45) * fsA)
+            else:
+                A['lb'], A['ub'] = None, None
+    m['rt'] = {'how': how, 'pre': pre, 'order': order, 'A': A}
+    return m
+
+
+TWO_SIDED = [c for c in CALLS if CALLS[c][1] in ('two', 'shift')]
+ARANGE_LENGTHS = [49, 61, 98, 103, 121, 122]        # lengths at which a float-step arange(0, Fs, Fs/N) emits N+1 points
+ARANGE_RATES = [1.0, 2 * math.pi, 1000.0]
+
+
+def fixed_meta(name, N, Fs):
+    """a plain call of `name` with data length = FFT length = N at rate Fs (deterministic)"""
+    m = {'call': name, 'dseed': N, 'n': N, 'N': N, 'Fs': f2x(Fs)}
+    if '.' not in name.split('/')[0] and name != 'get_freqs':
+        m.update(sides=name.split('/')[-1], NFFT=None, nch=[2, 1][N % 2])
+    if name in COMPLEX_CALLS or (CALLS[name][1] == 'two' and '.' not in name and N % 2):
+        m['complex'] = True
+    if name in ANALYZER:
+        m['unit'] = ['s', 'ms', 'us'][N % 3]
+    return m
+
+
+def draw(make, tries=6):
+    """a call that raises for reasons outside C05 (dpss on some n, …) is redrawn"""
+    c = None
+    for _try in range(tries):
+        c = make_case(make())
+        if not isinstance(c._res, str):
+            break
+    return c
+
+
 def cases(rng, tier, seed):
     per = {'quick': 30, 'thorough': 400}[tier]
+    rep = {'quick': 1, 'thorough': 8}[tier]
     out = []
     # minimal failing inputs of the recorded findings first (regression corpus)
     for m in CORPUS:
         out.append(make_case(dict(m)))
+    # random calls; parity / NFFT mode / unit / band mode stratified by the case index
     for name in CALLS:
-        k = per if 'multi_taper' not in name and 'Granger' not in name else max(4, per // 2)
-        for _ in range(k):
-            c = None
-            for _try in range(6):      # a call that raises for reasons outside C05 (dpss on tiny n, …) is redrawn
-                c = make_case(gen_meta(rng, name, tier))
-                if not isinstance(c._res, str):
-                    break
-            out.append(c)
+        k = per if 'multi_taper' not in name and 'Granger' not in name else max(12, per // 2)
+        for i in range(k):
+            out.append(draw(lambda: gen_meta(rng, name, tier, i)))
+    # two-sided grids at the lengths where float-step grids go wrong, at all three rates, on EVERY seed …
+    for name in TWO_SIDED:
+        for N in ARANGE_LENGTHS:
+            for Fs in ARANGE_RATES:
+                out.append(make_case(fixed_meta(name, N, Fs)))
+    # … and a sweep over every length 2..131 (rate rotating with the seed) for the cheap estimators
+    top = 131 if tier == 'quick' else 400
+    for name in ('periodogram/twosided', 'periodogram_csd/twosided', 'periodogram/onesided', 'periodogram_csd/onesided', 'get_freqs'):
+        for N in range(2, top + 1):
+            out.append(make_case(fixed_meta(name, N, ARANGE_RATES[(N + seed) % 3])))
+    # re-targeted analyzers: every analyzer x way of re-targeting x what was read before x read order
+    for r in range(rep):
+        i = 0
+        for name, hows in RT_HOWS.items():
+            for how in hows:
+                for pre in RT_PRE:
+                    for order in RT_ORDER:
+                        i += 1
+                        out.append(draw(lambda: gen_retarget(rng, name, tier, how, pre, order, i + r)))
     return out
 
 
